@@ -51,7 +51,8 @@ def ref_split_line(line):
 
 
 def tokens(s):
-    return re.findall(r"\w+|[^\w\s]", s)
+    # string and character literals are one token each: white space inside them is content
+    return re.findall(r'"(?:\\.|[^"\\])*"|\'(?:\\.|[^\'\\])*\'|\w+|[^\w\s]', s)
 
 
 def balanced(s):
@@ -82,8 +83,10 @@ def gen_body(rng, depth=0):
             parts.append("(" + gen_body(rng, depth + 1) + ")")
         elif c < 0.9:
             parts.append("{ " + gen_body(rng, depth + 1) + "; }")
-        else:
+        elif c < 0.95:
             parts.append('fatal("x) y, (z")')
+        else:
+            parts.append(rng.choice(['fatal("a\tb")', "'\t'", 'fatal("  two  blanks\t")', "x\t=\t7", "RdV  =  RsV"]))  # white space that is content / unusual separators
     return " ".join(parts)
 
 
@@ -219,6 +222,7 @@ def main(tier):
     scratch_files = 0
     scratch_entries = 0
     reloads = 0
+    malformed_files = 0
     for fno in range(3 if tier == "quick" else 40):
         tmp = tempfile.mkdtemp(prefix="verif-c19-")
         try:
@@ -298,6 +302,29 @@ def main(tier):
                         if not ok2:
                             run.violation(f"second load in one process: entry {n} still has the body of the first load / is wrong", {"kind": "loader_reload", "name": n, "body": b, "got": g2, "first": got.get(n)}, key="loader_reload")
                             break
+            # malformed lines in a file: the loader has to reject them (raise), not skip or repair them
+            for mi, bad in enumerate([f"insn(BAD{fno},\t{{ RdV = RsV; }})\n", f"insn(BAD{fno},{{ RdV = RsV; }})\n", f"insn(BAD{fno} {{ RdV = RsV; }})\n",
+                                      f"insn(BAD{fno}, {{ RdV = RsV; }}\n", f"\tinsn(BAD{fno}, {{ RdV = RsV; }})\n", f"insn(BAD{fno}, {{ RdV = RsV; }})\t;\n"]):
+                if ref_split_line(bad) is not None:
+                    continue
+                good = [l for l in lines if l.startswith("insn(")][:4]
+                with open(fpath, "w") as f:
+                    f.writelines(good[:2] + [bad] + good[2:])
+                M.Conf.get_path = staticmethod(lambda file, arch_name="": fpath if "SHORTCODE_RESOLVED_H" in repr(file) or str(file).endswith("shortcode_resolved.h") else orig(file, arch_name))
+                try:
+                    type(pp2 or PP).behaviors = dict()
+                    pp4 = PP(fpath)
+                    pp4.load_insn_behavior()
+                    gotm = dict(pp4.behaviors)
+                except Exception:  # noqa
+                    gotm = None
+                finally:
+                    M.Conf.get_path = orig
+                    PP.behaviors = dict()
+                cases += 1
+                malformed_files += 1
+                if gotm is not None:
+                    run.violation(f"load_insn_behavior accepts a file with the malformed line {bad!r} (entry: {str(gotm.get('BAD%d' % fno))[:80]})", {"kind": "loader_malformed", "line": bad, "entries": sorted(gotm)}, key=f"loader_malformed:{mi}")
             cases += 1
             scratch_files += 1
             if got is None:
@@ -328,7 +355,7 @@ def main(tier):
         "rule": "one case = one line (or compound body) handed to the real function and to the independent splitter; distinct non-trivial = distinct well-formed "
                 "bodies containing ( ) , or { that were recovered exactly, and compound bodies split without loss",
         "samples": samples or [{"note": "none"}], "bundled_lines": len(bundled), "bundled_compounds": ncomp, "generated_lines": ngen,
-        "scratch_files_loaded": scratch_files, "reloads_with_changed_bodies": reloads, "scratch_entries_compared": scratch_entries,
+        "scratch_files_loaded": scratch_files, "reloads_with_changed_bodies": reloads, "malformed_scratch_files": malformed_files, "scratch_entries_compared": scratch_entries,
     }, hard_inconclusive=None if cases > 1000 else "too few lines")
 
 
